@@ -277,6 +277,10 @@ class PoolGen:
         op["nonce"] = r.choice([last, last - 1, (self.now - 900 * K - 1) * 1000, (self.now - 900 * K + 1) * 1000 + 1, last + 1])
         self.last_nonce[node] = max(last, op["nonce"])
         self.emit(op)
+        if op["nonce"] < last and last > 0:
+            # ... and right after the refused one, the owner's last request once more (refused requests change nothing,
+            # so this replay is refused as it would have been before)
+            self.emit(dict(op, nonce=last))
 
     def sburst(self):
         """store operations issued concurrently (each is atomic by contract)"""
@@ -635,10 +639,13 @@ def nonce_race_script(seed, nbursts, driver, workdir):
     ops = [{"op": "Reset", "pool": True, "nodes": ["x9"], "accts": [], "unit": "1", "price": 1, "interval": 60, "hasmin": False, "minbal": 0,
             "maxhosts": 0, "fee": 0, "haswmin": False, "wmin": 0}]
     v = 0
-    for _ in range(nbursts):
+    for b in range(nbursts):
         v += rnd.choice([1, 1, 2])
         k = rnd.choice([2, 4, 8, 8])
         reqs = [{"op": "Nonce", "ident": "x9", "v": v, "wallet": False} for _ in range(k)]
+        if b % 3 == 0:
+            # racing copies of the very first request of an identity the store has never heard of
+            reqs += [{"op": "Nonce", "ident": "y%d" % b, "v": v, "wallet": False} for _ in range(rnd.choice([2, 4, 8]))]
         if rnd.random() < 0.3:
             reqs += [{"op": "Nonce", "ident": "x9", "v": v + 1, "wallet": False} for _ in range(2)]
             v += 1
